@@ -772,3 +772,302 @@ Qed.
 End Monoid.
 
 End Paths.
+
+(* ================================================================================================ *)
+(* 5. the tree path is the only simple path                                                          *)
+(* ================================================================================================ *)
+Lemma redge_chain r u v : redge r u v -> exists q, rchain r (q ++ [u; v]).
+Proof.
+  induction 1 as [i cs c Hc|i cs c u v Hc H (q & IH)].
+  - exists []. simpl. econstructor; eauto. destruct c; simpl. constructor.
+  - exists (i :: q). simpl. econstructor; eauto.
+Qed.
+
+(* the root path of a child is the root path of its parent followed by the child *)
+Lemma redge_rpath r u v :
+  NoDup (ids r) -> redge r u v ->
+  exists q, rpath u r = Some (q ++ [u]) /\ rpath v r = Some (q ++ [u; v]).
+Proof.
+  intros Hnd H. destruct (redge_chain _ _ _ H) as (q & Hq). exists q.
+  assert (Hv : rpath v r = Some (q ++ [u; v])).
+  { replace (q ++ [u; v]) with ((q ++ [u]) ++ [v]) in * by (rewrite <- app_assoc; auto).
+    eapply rchain_rpath; eauto. }
+  split; auto. eapply rpath_prefix; eauto.
+Qed.
+
+Lemma rpath_redge r q u v : rpath v r = Some (q ++ [u; v]) -> redge r u v.
+Proof. intros H. apply rpath_linked in H. eapply linked_split; eauto. Qed.
+
+Lemma redge_parent_unique r u u' v : NoDup (ids r) -> redge r u v -> redge r u' v -> u = u'.
+Proof.
+  intros Hnd H H'. destruct (redge_rpath _ _ _ Hnd H) as (q & _ & Hq).
+  destruct (redge_rpath _ _ _ Hnd H') as (q' & _ & Hq'). rewrite Hq in Hq'. injection Hq' as E.
+  change [u; v] with ([u] ++ [v]) in E. change [u'; v] with ([u'] ++ [v]) in E.
+  rewrite !app_assoc in E. apply app_last_inj in E as [E _]. apply app_last_inj in E. tauto.
+Qed.
+
+Lemma redge_neq r u v : NoDup (ids r) -> redge r u v -> u <> v.
+Proof.
+  intros Hnd H. destruct (redge_rpath _ _ _ Hnd H) as (q & _ & Hq).
+  apply rpath_NoDup in Hq; auto. apply NoDup_app_iff in Hq as (_ & Hq & _).
+  apply NoDup_cons_iff in Hq as [Hq _]. simpl in Hq. intros ->. tauto.
+Qed.
+
+Lemma down_chain_rpath r x : forall U w qw,
+  NoDup (ids r) -> rpath w r = Some qw -> linked (redge r) (w :: U ++ [x]) ->
+  rpath x r = Some (qw ++ U ++ [x]).
+Proof.
+  induction U as [|u U IH]; intros w qw Hnd Hw Hl.
+  - simpl in Hl. destruct Hl as [He _]. destruct (redge_rpath _ _ _ Hnd He) as (q & Hq & Hx).
+    rewrite Hw in Hq. injection Hq as ->. rewrite Hx. simpl. rewrite <- app_assoc. auto.
+  - cbn [app] in Hl. apply linked_cons2 in Hl as [He Hl].
+    destruct (redge_rpath _ _ _ Hnd He) as (q & Hq & Hu).
+    rewrite Hw in Hq. injection Hq as ->.
+    rewrite (IH u ((q ++ [w]) ++ [u])); auto.
+    + rewrite <- !app_assoc. auto.
+    + rewrite Hu. rewrite <- app_assoc. auto.
+Qed.
+
+Lemma chain_end r w X qw e :
+  NoDup (ids r) -> rpath w r = Some qw -> linked (redge r) (w :: X) ->
+  (exists m, w :: X = m ++ [e]) -> rpath e r = Some (qw ++ X).
+Proof.
+  intros Hnd Hw Hl (m & Hm). destruct X as [|x0 X0] using rev_ind.
+  - change [w] with ([] ++ [w]) in Hm. apply app_last_inj in Hm as [_ <-]. rewrite app_nil_r. auto.
+  - clear IHX0. rewrite app_comm_cons in Hm. apply app_last_inj in Hm as [_ <-].
+    eapply down_chain_rpath; eauto.
+Qed.
+
+Lemma chain_top_in r w X e :
+  linked (redge r) (w :: X) -> (exists m, w :: X = m ++ [e]) -> In e (ids r) -> In w (ids r).
+Proof.
+  intros Hl (m & Hm) He. destruct X as [|x X].
+  - change [w] with ([] ++ [w]) in Hm. apply app_last_inj in Hm as [_ <-]. auto.
+  - apply linked_cons2 in Hl as [Hl _]. apply redge_in in Hl. tauto.
+Qed.
+
+Lemma cpl_disjoint U D : (forall z, In z U -> In z D -> False) -> cpl U D = 0.
+Proof.
+  destruct U as [|u U], D as [|d D]; simpl; auto. intros H.
+  destruct (Nat.eqb_spec u d) as [->|]; auto. exfalso. apply (H d); auto.
+Qed.
+
+(* a simple path climbs, then descends *)
+Lemma simple_path_shape r : forall P,
+  NoDup (ids r) -> NoDup P -> linked (radj r) P -> P <> [] ->
+  exists Ur w D, P = Ur ++ w :: D /\
+    linked (fun x y => redge r y x) (Ur ++ [w]) /\ linked (redge r) (w :: D).
+Proof.
+  induction P as [|x P IH]; intros Hnd HndP Hl Hne; [congruence|]. clear Hne.
+  destruct P as [|y P'].
+  - exists [], x, []. simpl. auto.
+  - apply linked_cons2 in Hl as [Hxy Hl]. apply NoDup_cons_iff in HndP as [Hx HndP].
+    destruct (IH Hnd HndP Hl) as (Ur & w & D & HP & Hup & Hdown); [discriminate|].
+    destruct Ur as [|y' Ur0]; simpl in HP.
+    + injection HP as -> ->. destruct Hxy as [Hxy|Hyx].
+      * exists [], x, (w :: D). repeat split; simpl; auto.
+      * exists [x], w, D. repeat split; simpl; auto.
+    + injection HP as <- ->. destruct Hxy as [Hxy|Hyx].
+      * exfalso. cbn [app] in Hup.
+        destruct Ur0 as [|y2 Ur0]; cbn [app] in Hup; apply linked_cons2 in Hup as [Hup _].
+        -- pose proof (redge_parent_unique _ _ _ _ Hnd Hxy Hup). subst. apply Hx. right. left. auto.
+        -- pose proof (redge_parent_unique _ _ _ _ Hnd Hxy Hup). subst. apply Hx. right. left. auto.
+      * exists (x :: y :: Ur0), w, D. repeat split; auto.
+Qed.
+
+(* the path of [tree_path_spec] is the only duplicate-free walk from a to b along tree edges *)
+Theorem tree_path_unique r a b pa pb P c :
+  NoDup (ids r) -> rpath a r = Some pa -> rpath b r = Some pb ->
+  NoDup P -> linked (radj r) P -> (exists m, P = a :: m) -> (exists m, P = m ++ [b]) ->
+  nth_error pa (cpl pa pb - 1) = Some c ->
+  P = rev (skipn (cpl pa pb) pa) ++ c :: skipn (cpl pa pb) pb.
+Proof.
+  intros Hnd Ha Hb HndP Hl (ma & Hma) (mb & Hmb) Hc.
+  destruct (simple_path_shape r P Hnd HndP Hl) as (Ur & w & D & HP & Hup & Hdown);
+    [rewrite Hma; discriminate|].
+  apply linked_rev in Hup. rewrite rev_app_distr in Hup. simpl in Hup.
+  assert (Htopa : exists m, w :: rev Ur = m ++ [a]).
+  { exists (rev (tl (Ur ++ [w]))).
+    assert (E : Ur ++ [w] = a :: tl (Ur ++ [w])).
+    { rewrite Hma in HP. destruct Ur; simpl in *; injection HP as -> _; auto. }
+    apply (f_equal (@rev nat)) in E. rewrite rev_app_distr in E. simpl in E. auto. }
+  assert (Htopb : exists m, w :: D = m ++ [b]).
+  { rewrite Hmb in HP. clear - HP. revert mb HP. induction Ur as [|u Ur IH]; intros mb HP; simpl in *; eauto.
+    destruct mb as [|m0 mb]; simpl in HP.
+    - injection HP as _ HP. destruct Ur; discriminate.
+    - injection HP as _ HP. eauto. }
+  assert (Hw : In w (ids r)).
+  { eapply (chain_top_in r w D b); eauto. eapply rpath_In; eauto. }
+  apply rpath_total in Hw as (qw & Hw).
+  pose proof (chain_end _ _ _ _ _ Hnd Hw Hup Htopa) as Ha'.
+  pose proof (chain_end _ _ _ _ _ Hnd Hw Hdown Htopb) as Hb'.
+  rewrite Ha in Ha'. rewrite Hb in Hb'. injection Ha' as ->. injection Hb' as ->.
+  assert (Hdis : forall z, In z (rev Ur) -> In z D -> False).
+  { rewrite HP in HndP. apply NoDup_app_iff in HndP as (_ & _ & Hd).
+    intros z Hz1 Hz2. apply in_rev in Hz1. apply (Hd z); auto. right. auto. }
+  rewrite cpl_app, (cpl_disjoint _ _ Hdis), Nat.add_0_r in *.
+  rewrite !skipn_app, !skipn_all, !Nat.sub_diag. simpl. rewrite rev_involutive.
+  destruct (rpath_last _ _ _ Hw) as (q' & ->).
+  rewrite app_length in Hc. simpl in Hc. rewrite Nat.add_sub in Hc.
+  rewrite <- !app_assoc in Hc. rewrite nth_error_app2, Nat.sub_diag in Hc by auto. simpl in Hc.
+  injection Hc as <-. auto.
+Qed.
+
+(* ================================================================================================ *)
+(* 6. further arena-level corollaries                                                                *)
+(* ================================================================================================ *)
+Section PathsExtra.
+Context {L : Type}.
+Notation arena := (@arena L).
+Notation node := (@node L).
+Implicit Types (t : arena) (n : node).
+Variable O : LenOps L.
+
+(* the parent field of a node of the tree names a node of the tree, and the root path of the node is
+   the root path of that parent followed by the node *)
+Theorem parent_rpath t root r x n q :
+  Rep t None 0 root r -> NoDup (ids r) -> In x (ids r) -> get t x = Ok n -> nparent n = Some q ->
+  In q (ids r) /\ exists pq, rpath q r = Some pq /\ rpath x r = Some (pq ++ [x]).
+Proof.
+  intros HR Hnd Hin Hg Hp. apply rpath_total in Hin as (px & Hx).
+  destruct (rpath_last _ _ _ Hx) as (px' & ->).
+  destruct px' as [|u px'' _] using rev_ind.
+  - exfalso. destruct (rpath_head _ _ _ Hx) as (? & E). simpl in E. injection E as -> _.
+    rewrite (Rep_rid _ _ _ _ _ HR) in *.
+    destruct (Rep_inv _ _ _ _ _ HR) as (n' & ? & _ & Hn' & _ & _ & Hp' & _).
+    apply get_Ok in Hg as [Hn _]. congruence.
+  - rewrite <- app_assoc in Hx. simpl in Hx. pose proof (rpath_redge _ _ _ _ Hx) as He.
+    destruct (redge_arena _ _ _ _ _ _ _ HR He) as (nu & nv & _ & Hgv & Hpv & _).
+    rewrite Hg in Hgv. injection Hgv as <-. rewrite Hp in Hpv. injection Hpv as ->.
+    split; [apply (redge_in _ _ _ He)|]. exists (px'' ++ [u]). split.
+    + eapply rpath_prefix; eauto.
+    + rewrite <- app_assoc. auto.
+Qed.
+
+Theorem root_path t root r :
+  Rep t None 0 root r -> NoDup (ids r) -> get_path_from_root t root = Ok [root].
+Proof.
+  intros HR Hnd. pose proof (Rep_rid _ _ _ _ _ HR) as E.
+  destruct (path_refines t root r root HR Hnd) as (p & -> & Hp).
+  - rewrite <- E. apply In_rid_ids.
+  - rewrite <- E, rpath_root in Hp. congruence.
+Qed.
+
+(* the cached depth of a node is the number of edges of its root path *)
+Lemma rpath_depth t x : forall r p d i q,
+  Rep t p d i r -> rpath x r = Some q ->
+  exists n, get t x = Ok n /\ ndepth n + 1 = d + length q.
+Proof.
+  induction r as [i0 cs IH] using rtree_ind'. intros p d i q HR.
+  destruct (Rep_inv _ _ _ _ _ HR) as (n & cs' & Heq & Hn & Hdel & Hid & Hp & Hd & HF & _).
+  injection Heq as -> ->. rewrite rpath_RT. destruct (Nat.eqb_spec i x) as [->|Hne].
+  - intros [= <-]. exists n. split; [apply get_Ok; auto|]. simpl. lia.
+  - destruct (rpath_first x cs') as [qc|] eqn:E; simpl; [|discriminate]. intros [= <-].
+    apply rpath_first_Some in E as (c & Hc & Hq).
+    destruct (Forall2_In_r _ _ _ _ HF Hc) as (kc & _ & HRc). rewrite Forall_forall in IH.
+    destruct (IH c Hc _ _ _ _ HRc Hq) as (nx & Hg & Hdx). exists nx. split; auto. simpl. lia.
+Qed.
+
+Theorem path_length_depth t root r x p n :
+  Rep t None 0 root r -> NoDup (ids r) -> get_path_from_root t x = Ok p -> In x (ids r) ->
+  get t x = Ok n -> length p = S (ndepth n).
+Proof.
+  intros HR Hnd Hp Hin Hg. destruct (path_refines _ _ _ _ HR Hnd Hin) as (p' & Hp' & Hx).
+  rewrite Hp in Hp'. injection Hp' as <-.
+  destruct (rpath_depth _ _ _ _ _ _ _ HR Hx) as (n' & Hg' & Hd). rewrite Hg in Hg'. injection Hg' as <-. lia.
+Qed.
+
+(* characterisation of the reported length *)
+Lemma path_len_None (es : list (option L)) : path_len O es = None <-> In None es.
+Proof.
+  unfold path_len, all_present. destruct (forallb _ es) eqn:E.
+  - split; [discriminate|]. intros Hin. rewrite forallb_forall in E. specialize (E _ Hin). discriminate.
+  - split; auto. intros _. induction es as [|[e|] es IH]; simpl in *; auto; discriminate.
+Qed.
+
+Lemma path_len_Some (es : list (option L)) :
+  ~ In None es -> path_len O es = Some (fold_left (ladd O) (present es) (l0 O)).
+Proof.
+  intros H. unfold path_len. destruct (all_present es) eqn:E; auto.
+  exfalso. apply H. apply path_len_None. unfold path_len. rewrite E. auto.
+Qed.
+
+Lemma path_len_all_present (ls : list L) :
+  path_len O (map Some ls) = Some (fold_left (ladd O) ls (l0 O)).
+Proof.
+  rewrite path_len_Some.
+  - f_equal. f_equal. unfold present. induction ls; simpl; auto. f_equal; auto.
+  - intros H. apply in_map_iff in H as (? & ? & _). discriminate.
+Qed.
+
+(* dead or out-of-range arguments *)
+Definition dead t (x : nat) : Prop := forall n, nth_error t x = Some n -> ndeleted n = true.
+
+Theorem lca_dead_l t a b : a <> b -> dead t a -> get_common_ancestor t a b = Err NodeNotFound.
+Proof.
+  intros Hne Hd. unfold get_common_ancestor. apply Nat.eqb_neq in Hne. rewrite Hne.
+  rewrite path_dead; auto.
+Qed.
+
+Theorem lca_dead_r t root r a b :
+  Rep t None 0 root r -> NoDup (ids r) -> In a (ids r) -> a <> b -> dead t b ->
+  get_common_ancestor t a b = Err NodeNotFound.
+Proof.
+  intros HR Hnd Hin Hne Hd. unfold get_common_ancestor. apply Nat.eqb_neq in Hne. rewrite Hne.
+  destruct (path_refines _ _ _ _ HR Hnd Hin) as (p & -> & _). cbn [bind]. rewrite path_dead; auto.
+Qed.
+
+Theorem dist_dead_l t a b : a <> b -> dead t a -> get_distance O t a b = Err NodeNotFound.
+Proof.
+  intros Hne Hd. unfold get_distance. apply Nat.eqb_neq in Hne. rewrite Hne.
+  rewrite path_dead; auto.
+Qed.
+
+Theorem dist_dead_r t root r a b :
+  Rep t None 0 root r -> NoDup (ids r) -> In a (ids r) -> a <> b -> dead t b ->
+  get_distance O t a b = Err NodeNotFound.
+Proof.
+  intros HR Hnd Hin Hne Hd. unfold get_distance. apply Nat.eqb_neq in Hne. rewrite Hne.
+  destruct (path_refines _ _ _ _ HR Hnd Hin) as (p & -> & _). cbn [bind]. rewrite path_dead; auto.
+Qed.
+
+(* the number of reported edges is the number of edges of the tree path of [tree_path_spec] *)
+Theorem dist_count_is_tree_path t root r a b lab cnt :
+  Rep t None 0 root r -> NoDup (ids r) -> In a (ids r) -> In b (ids r) ->
+  get_distance O t a b = Ok (lab, cnt) ->
+  exists c path, get_common_ancestor t a b = Ok c /\ In c path /\
+    (exists m, path = a :: m) /\ (exists m, path = m ++ [b]) /\
+    NoDup path /\ linked (radj r) path /\ length path = S cnt /\
+    (forall P, NoDup P -> linked (radj r) P -> (exists m, P = a :: m) -> (exists m, P = m ++ [b]) ->
+               P = path).
+Proof.
+  intros HR Hnd Hina Hinb Hg.
+  destruct (dist_refines O _ _ _ _ _ HR Hnd Hina Hinb) as (pa & pb & Ha & Hb & Hd).
+  cbv zeta in Hd. rewrite Hg in Hd. injection Hd as _ ->.
+  destruct (tree_path_spec _ _ _ _ _ Hnd Ha Hb) as (c & Hc & H1 & H2 & H3 & H4 & H5).
+  exists c, (rev (skipn (cpl pa pb) pa) ++ c :: skipn (cpl pa pb) pb). repeat split; auto.
+  - destruct (lca_detail _ _ _ _ _ HR Hnd Hina Hinb) as (pa' & pb' & pc & c' & Ha' & Hb' & _ & _ & Hl & _ & ->).
+    rewrite Ha in Ha'. rewrite Hb in Hb'. injection Ha' as <-. injection Hb' as <-.
+    destruct (lca_spec _ _ _ _ _ Hnd Ha Hb) as (pc2 & c2 & Hl2 & _ & Hsa & _ & Hk & _).
+    rewrite Hl in Hl2. apply app_last_inj in Hl2 as [<- <-].
+    rewrite Hk in Hc. simpl in Hc. rewrite Nat.sub_0_r in Hc. rewrite Hsa in Hc at 1.
+    rewrite nth_error_app2, Nat.sub_diag in Hc by auto. simpl in Hc. congruence.
+  - apply in_or_app. right. left. auto.
+  - intros P HP1 HP2 HP3 HP4. eapply tree_path_unique; eauto.
+Qed.
+
+End PathsExtra.
+
+(* ================================================================================================ *)
+Print Assumptions path_refines.
+Print Assumptions rpath_prefix.
+Print Assumptions lca_refines.
+Print Assumptions lca_sym.
+Print Assumptions dist_refines.
+Print Assumptions dist_sym.
+Print Assumptions dist_sym_count.
+Print Assumptions dist_self.
+Print Assumptions path_dead.
+Print Assumptions tree_path_spec.
+Print Assumptions tree_path_unique.
+Print Assumptions dist_count_is_tree_path.
